@@ -61,9 +61,13 @@ SortedSeqBag(q) ==
 RECURSIVE Flat(_)
 Flat(ff) == IF ff = <<>> THEN <<>> ELSE Head(ff) \o Flat(Tail(ff))
 HashCv(f) == HashSeq(Flat(f), 7)
+\* one assignment in which the windows of an azimuth are pairwise different curves and the azimuths differ
+InitDistinct == { [a \in Az |-> [w \in Win |-> (((w - 1) + 2 * (a - 1)) % Len(Alphabet)) + 1]] }
+
+\* (the bucket often holds assignments that repeat a curve; InitDistinct is always added)
 InitEnv == LET K == atoi(IOEnv.VERIF_K)
                S == atoi(IOEnv.VERIF_SEED)
-           IN { f \in InitAll : (HashCv(f) + S) % K = 0 }
+           IN { f \in InitAll : (HashCv(f) + S) % K = 0 } \cup InitDistinct
 \* all orderings of the multisets whose sorted form falls in the bucket (permutation invariance is
 \* then visible across the group); NA = 1 only
 SortAsc(q) == SortedSeqBag(q)
@@ -73,9 +77,6 @@ InitPermsEnv == LET K == atoi(IOEnv.VERIF_K)
 
 \* quick variant: at most about a third of the orderings of each selected multiset
 InitPermsEnvQ == { f \in InitPermsEnv : HashCv(f) % 3 = 0 }
-
-\* one assignment in which the windows of an azimuth are pairwise different curves and the azimuths differ
-InitDistinct == { [a \in Az |-> [w \in Win |-> (((w - 1) + 2 * (a - 1)) % Len(Alphabet)) + 1]] }
 
 \* the orderings of one tall tent (curve 1 of Alpha8d, at grid point 2) and three medium tents (curve 5, at grid point 6)
 InitTallMedium == { f \in InitAll : SortAsc(f[1]) = <<1, 5, 5, 5>> }
@@ -87,6 +88,10 @@ NextC06 ==
     \/ \E r \in Ranges : UpdateRange(r, FALSE)
     \/ \E S \in TdMasks : TdReject(S)
 \* interactive manual rejection only (from every initial assignment): the sessions an analyst can chain
+\* statistics-focused: only single-window manual rejections and range updates (every per-azimuth accept pattern is reached)
+NextRejectOnly ==
+    \/ \E a \in Az, w \in Win : ManualReject(a, {w})
+    \/ \E r \in Ranges : UpdateRange(r, FALSE)
 NextManualOnly == \E r \in Ranges, b \in Boxes : ManualSession(r, b)
 SThrHalf == <<1, 2>>      \* grid step 0.02 Hz: 0.01 Hz = half a step
 SThrQuarter == <<1, 4>>   \* grid step 0.04 Hz
